@@ -751,7 +751,7 @@ func (x *Exec) jump(st *State, b *ssa.BasicBlock) (forks []*State, done bool) {
 			n64, _ := isLitInt(v)
 			n = int(n64)
 		}
-		if n >= x.boundK() {
+		if n > x.boundK() {
 			x.cuts++
 			st.dead = true
 			return nil, true
